@@ -313,7 +313,7 @@ def run(ctx):
     good = [c for c in cases if ver[c['id']]['ok'] and c['cols'] and c['rel'] == 'translate' and c['dx']][:3]
     bad = []
     for k2, c in enumerate(good):
-        c2 = json.loads(json.dumps(c)); c2['id'] = 10**9 + k2
+        c2 = core.jcopy(c); c2['id'] = 10**9 + k2
         xc = next((cc for cc in c2['cols'] if cc['kind'] in ('x', 'ix')), None)
         if xc is None:
             continue
